@@ -658,9 +658,13 @@ func crashRun(args []string) error {
 		defer hf.Close()
 	}
 	nerr := 0
+	firstErr := ""
 	for i, r := range results {
 		if r.err != nil {
 			nerr++
+			if firstErr == "" {
+				firstErr = jobs[i].Name + ": " + r.err.Error()
+			}
 			fmt.Fprintln(os.Stderr, "crash-run:", r.err)
 			continue
 		}
@@ -672,7 +676,8 @@ func crashRun(args []string) error {
 			hf.Write(append(b, '\n'))
 		}
 	}
-	fmt.Printf("{\"runs\":%d,\"errors\":%d}\n", len(jobs), nerr)
+	fe, _ := json.Marshal(firstErr)
+	fmt.Printf("{\"runs\":%d,\"errors\":%d,\"first_error\":%s}\n", len(jobs), nerr, fe)
 	return nil
 }
 
